@@ -83,9 +83,7 @@ Hypothesis inner_cons : forall p' re rr,
    | [] => set_node re (set_content rn [CData (DString p')])
    | _ :: tl => set_node re (set_content rn (CData (DString p') :: tl))
    end;; inner p' rr)%W.
-Hypothesis each_nil : each [] = wret tt.
-Hypothesis each_cons : forall refpath r,
-  each (refpath :: r) =
+Definition loop_body (refpath : list N) : W unit :=
   (match strip_prefix old refpath with
    | Some partial =>
      if is_empty partial || starts_with_slash partial then
@@ -101,7 +99,9 @@ Hypothesis each_cons : forall refpath r,
        end
      else wret tt
    | None => wret tt
-   end;; each r)%W.
+   end)%W.
+Hypothesis each_nil : each [] = wret tt.
+Hypothesis each_cons : forall refpath r, each (refpath :: r) = (loop_body refpath;; each r)%W.
 
 (* the inner loop: Inv04 and the goodness of every node are kept, models untouched *)
 Lemma inner_keeps p' : forall rl w w',
@@ -125,11 +125,9 @@ Qed.
 Lemma inv04_models w ms : Inv04 w -> map iview ms = map iview (w_models w) -> Inv04 (mkWorld (w_nodes w) (w_next w) (w_files w) ms).
 Proof. intros HI H. eapply Inv04_iv; [|exact HI]. split; [intros i; reflexivity|exact H]. Qed.
 
-Lemma each_keeps : forall keys w w', J m w -> each keys w = Val (OK tt, w') -> J m w'.
+Lemma body_keeps k w w1 : J m w -> loop_body k w = Val (OK tt, w1) -> J m w1.
 Proof.
-  induction keys as [|k keys IH]; intros w w' HJ H.
-  - rewrite each_nil in H. winv H. exact HJ.
-  - rewrite each_cons in H. wbind_w H u w1 E1. destruct u. apply (IH w1 w'); [|exact H]. clear H IH.
+  intros HJ E1. unfold loop_body in E1.
     destruct (strip_prefix old k) as [partial|]; [|winv E1; exact HJ].
     destruct (is_empty partial || starts_with_slash partial); [|winv E1; exact HJ].
     wmodel E1 y Hy. fold (model_at w m) in Hy.
@@ -175,6 +173,13 @@ Proof.
         eapply HG; [exact Hy|apply assoc_get_in; exact Ek|exact Hr].
       * apply in_app_iff in Hin as [Hin|[[= <- <-]|[]]]; [eapply Hmem; eauto|].
         eapply HG; [exact Hy|apply assoc_get_in; exact Ek|exact Hr].
+Qed.
+
+Lemma each_keeps : forall keys w w', J m w -> each keys w = Val (OK tt, w') -> J m w'.
+Proof.
+  induction keys as [|k keys IH]; intros w w' HJ H.
+  - rewrite each_nil in H. winv H. exact HJ.
+  - rewrite each_cons in H. wbind_w H u w1 E1. destruct u. apply (IH w1 w'); [|exact H]. eapply body_keeps; eauto.
 Qed.
 
 End Loop.
